@@ -268,3 +268,217 @@ PROPS["C08"] = catalog("C08", "Iggy.Props.C08", ["group-", "poll-next", "poll-"]
                         "create-parts", "delete-parts"},
                        ASSUME_NODE + ["hash-map iteration order of group members is an input of the model: the harness prints the implementation's member order after every membership change and the model adopts it (every theorem holds for every order)",
                                       "liveness ('someone keeps polling') is the caller's; the theorems give safety (delivered is a prefix) + progress (a served poll on a partition with undelivered messages is non-empty)"])
+
+
+# ------------------------------------------------------------------------------------------------
+# C11: journal (interactive harness mode)
+
+import subprocess
+import gen_journal
+
+
+def run_c11(prop, tier, seed, replay, t0):
+    module = "Iggy.Props.C11"
+    vlib.lean_build([module, "judge"])
+    names, examples, axioms, bad = vlib.audit(module)
+    obligations = len(names) + examples
+    vlib.build_harness()
+    n = 60 if tier == "quick" else 600
+
+    def one(k):
+        rng = random.Random((seed << 20) ^ k)
+        d = f"{vlib.WORK}/C11/{k}"
+        os.makedirs(d, exist_ok=True)
+        p = subprocess.Popen([vlib.HBIN, "journal", d], stdin=subprocess.PIPE, stdout=subprocess.PIPE,
+                             stderr=subprocess.DEVNULL, text=True, bufsize=1)
+
+        def op(line):
+            try:
+                p.stdin.write(line + "\n")
+                p.stdin.flush()
+                r = p.stdout.readline()
+            except BrokenPipeError:
+                return "died"
+            return r.strip() if r else "died"
+        if replay:
+            trace = []
+            for l in open(replay):
+                l = l.rstrip("\n")
+                if l and not l.startswith("#"):
+                    o = l.split("\t")[0]
+                    trace.append(f"{o}\t{op(o)}")
+        else:
+            trace = gen_journal.run(rng, op, tier)
+        try:
+            p.stdin.write("quit\n")
+            p.stdin.close()
+        except Exception:
+            pass
+        p.wait(timeout=30)
+        import shutil
+        shutil.rmtree(d, ignore_errors=True)
+        return k, trace, vlib.judge("journal", trace)
+
+    if replay:
+        k, trace, j = one(0)
+        print(j["raw"])
+        return 1 if (j["spec"] or j["corr"]) else 0
+    results = vlib.parallel(one, list(range(n)))
+    cov, spec_v, corr_d, total = {}, [], [], 0
+    for k, trace, j in results:
+        for a, b in j["cov"].items():
+            cov[a] = cov.get(a, 0) + b
+        m = re.search(r"lines=(\d+)", j["done"] or "")
+        total += int(m.group(1)) if m else 0
+        spec_v += [(k, trace, l) for l in j["spec"]]
+        corr_d += [(k, trace, l) for l in j["corr"]]
+    rc, msgs = 0, []
+    if bad:
+        path = vlib.write_replay(prop, "audit.txt", "\n".join(bad))
+        msgs.append(f"VIOLATION property={prop} replay={path} no-failing-input-found")
+        rc = 1
+    if spec_v:
+        k, trace, l = spec_v[0]
+        path = vlib.write_replay(prop, "violation.trace", "\n".join(trace) + "\n# " + l + "\n")
+        msgs.append(f"VIOLATION property={prop} replay={path}")
+        rc = 1
+    elif corr_d:
+        k, trace, l = corr_d[0]
+        path = vlib.write_replay(prop, "correspondence.trace", "\n".join(trace) +
+                                 "\n# correspondence `journal` (model vs real FileState) no longer checks; first difference:\n# " + l + "\n")
+        msgs.append(f"VIOLATION property={prop} replay={path} no-failing-input-found")
+        rc = 1
+    muts = cov.get("byte-mutations", 0) + cov.get("truncations", 0) + sum(v for a, v in cov.items() if a.startswith("entry-mutation"))
+    coverage = {
+        "obligations": obligations, "discharged": obligations if not bad else 0,
+        "checker_cmd": f"lake build {module} judge && lake env lean Iggy/Audit/C11.lean (#print axioms)",
+        "trusted_base": COMMON_TB[:1] + [
+            "hand-written model lean/Iggy/Journal/Model.lean (entry layout, loader, apply), validated byte-for-byte against the real FileState (file dumps equal) and verdict-for-verdict against the real loader on every mutation",
+            "CRC-32 is a parameter of the theorems; byte-level tamper detection is proved under the hypothesis Burst ck (a single changed byte changes the checksum) — an assumption about crc32fast, exercised by the exhaustive mutation run",
+            "harness /verif/harness (journal mode), runner /verif/lib"],
+        "theorems": names, "nonvacuity_examples": examples, "axioms_used": axioms,
+        "traces_validated_against_impl": len(results), "evaluations": muts + total,
+        "distinct_nontrivial": len({tuple(sorted(j["cov"])) + (len(t),) for _, t, j in results}),
+        "rule": "each journal history: random applies with injected append failures, dumps (model bytes = file bytes), loads, reopen, every truncation point, every byte x {+1, ^0x80, 0x00, 0xFF} (thorough: all 255 values on journals < 400 B), whole-entry removal/duplication/adjacent swap/suffix loss, k concurrent applies on one FileState; evaluations = loader runs compared; distinct = distinct (coverage key set, trace length)",
+        "samples": [{"trace_head": [l[:160] for l in results[0][1][:25]]}],
+        "mutation_counts": cov, "spec_violations": len(spec_v), "corr_diffs": len(corr_d), "exhaustive": False,
+    }
+    vlib.write_evidence(prop, tier, seed, coverage, [
+        "an append either fails cleanly or completes (torn appends are C04's crash images)",
+        "length-field mutations that declare > 16 MiB are not given to the real loader (it would allocate them): counted as H, the model says error",
+        "concurrent applies are real tokio tasks on one FileState; their order is the scheduler's and is read back from the file"],
+        time.time() - t0, len(spec_v) + (1 if corr_d or bad else 0))
+    for m in msgs:
+        print(m)
+    if rc == 0:
+        print(f"OK property={prop} obligations={obligations} journals={len(results)} loader_runs={muts}")
+    else:
+        for k, t, l in (spec_v + corr_d)[:5]:
+            print("  ", k, l[:300])
+    return rc
+
+
+PROPS["C11"] = {"run": run_c11}
+
+
+# ------------------------------------------------------------------------------------------------
+# C09: translated permission rules + exhaustive table
+
+def run_c09(prop, tier, seed, replay, t0):
+    module = "Iggy.Props.C09"
+    tr = vlib.sh(["python3", f"{vlib.VERIF}/translate/perm_rules.py"])
+    translation_error = None
+    if tr.returncode != 0:
+        translation_error = tr.stdout.strip()
+    proof_error = None
+    names, examples, axioms, bad = [], 0, [], []
+    if translation_error is None:
+        try:
+            vlib.lean_build([module])
+            names, examples, axioms, bad = vlib.audit(module)
+        except vlib.BuildError as e:
+            proof_error = str(e)
+        vlib.lean_build(["judge"])       # the judge itself (generated rules + Enum) must build
+    vlib.build_harness()
+    obligations = len(names) + examples
+    N = 1025 * 1153
+    variants = ["same", "other-stream", "other-topic", "other-user"]
+    diffs, panics = [], []
+    os.makedirs(f"{vlib.WORK}/C09", exist_ok=True)
+
+    def table(v):
+        a = subprocess.run([vlib.HBIN, "perm", "0", str(N), v], stdout=subprocess.PIPE, text=True).stdout.splitlines()
+        b = subprocess.run([vlib.JUDGE, "perm", "0", str(N), v], stdout=subprocess.PIPE, text=True).stdout.splitlines() \
+            if translation_error is None else []
+        return v, a, b
+    tables = vlib.parallel(table, variants, workers=4)
+    rules = tables[0][1][0].split(" ", 1)[1].split(",") if tables[0][1] else []
+    evaluations = 0
+    for v, a, b in tables:
+        evaluations += (len(a) - 1) * len(rules)
+        for i, line in enumerate(a[1:]):
+            if "2" in line:
+                panics.append((v, i, [rules[k] for k, c in enumerate(line) if c == "2"]))
+                if len(panics) > 20:
+                    break
+        if b and a != b:
+            for i, (x, y) in enumerate(zip(a, b)):
+                if x != y:
+                    diffs.append((v, i - 1, x, y))
+                    break
+    sound = subprocess.run([vlib.JUDGE, "permsound", "0", str(N)], stdout=subprocess.PIPE, text=True).stdout \
+        if translation_error is None else ""
+    unsound = [l for l in sound.splitlines() if l.startswith("UNSOUND")]
+
+    def describe(idx, v):
+        g, sr = divmod(idx, 1153)
+        return (f"record index {idx} (variant {v}): global = " + ("none (no permission record)" if g == 0 else f"flags {g - 1:010b} (bit0=manage_servers … bit9=send_messages)") +
+                "; stream record = " + ("none" if sr == 0 else f"flags {(sr - 1) // 18:06b}, topics case {(sr - 1) % 18} (0 = no topic table, 1 = table without the topic, 2+k = topic flags k)") +
+                "; evaluated at user 7, stream 3, topic 5; replay: harness/target/debug/verif-harness perm {0} {1} {2}".format(idx, idx + 1, v))
+    rc, msgs = 0, []
+    if panics:
+        v, i, rs = panics[0]
+        path = vlib.write_replay(prop, "panic.txt", f"rules {rs} PANIC on the real Permissioner\n" + describe(i, v) + "\n")
+        msgs.append(f"VIOLATION property={prop} replay={path}")
+        rc = 1
+    if unsound:
+        idx = int(re.search(r"idx=(\d+)", unsound[0]).group(1))
+        real = tables[0][1][idx + 1] if tables[0][1] else ""
+        path = vlib.write_replay(prop, "unsound.txt", unsound[0] + "\n" + describe(idx, "same") +
+                                 f"\nreal Permissioner outcomes at this record ({','.join(rules)}): {real}\n")
+        msgs.append(f"VIOLATION property={prop} replay={path}")
+        rc = 1
+    if rc == 0 and (translation_error or proof_error or bad or diffs):
+        what = translation_error or proof_error or "\n".join(bad) or \
+            f"generated Lean rules and the real Permissioner differ: variant {diffs[0][0]} {describe(diffs[0][1], diffs[0][0])}\nreal={diffs[0][2]}\nlean={diffs[0][3]}"
+        path = vlib.write_replay(prop, "proof-or-translation.txt", what[:6000])
+        msgs.append(f"VIOLATION property={prop} replay={path} no-failing-input-found")
+        rc = 1
+    coverage = {
+        "obligations": max(obligations, 1), "discharged": obligations if rc == 0 else 0,
+        "checker_cmd": "python3 translate/perm_rules.py && lake build Iggy.Props.C09 judge && lake env lean Iggy/Audit/C09.lean (#print axioms)",
+        "trusted_base": COMMON_TB[:1] + [
+            "translator /verif/translate/perm_rules.py (Rust subset -> Lean), cross-validated on every run: the generated Lean rules and the real Permissioner are evaluated on the complete record space (4 x 1,181,825 records x all public rules) and must agree",
+            "hand-written lean/Iggy/Perm/Tables.lean (table maintenance) and Spec.lean (documented hierarchy)",
+            "harness /verif/harness (perm mode; evaluator perm_gen.rs is generated with the Lean file)"],
+        "theorems": names, "nonvacuity_examples": examples, "axioms_used": axioms,
+        "programs": len(rules), "disagreements_checked": len(diffs),
+        "traces_validated_against_impl": len(variants), "evaluations": evaluations,
+        "distinct_nontrivial": N, "exhaustive": True,
+        "rule": "records = 1025 global cases (none | 2^10 flags) x 1153 stream-record cases (none | 2^6 flags x {no topic table, table without the topic, table with the topic x 2^4 flags}); variants: record about the same / another stream / another topic / another user; every public rule evaluated at (user 7, stream 3, topic 5) under catch_unwind; the space is the one theorem `local` shows sufficient",
+        "samples": [{"rules": rules}, {"record_0_outcomes": tables[0][1][1] if len(tables[0][1]) > 1 else ""},
+                    {"record_root_like": tables[0][1][N] if len(tables[0][1]) > N else ""}],
+        "panics": len(panics), "unsound": len(unsound),
+    }
+    vlib.write_evidence(prop, tier, seed, coverage, [
+        "history part (permission updates on open sessions) is exercised by the node traces of C10",
+        "completeness is not claimed (the property is one-directional: no escalation)"],
+        time.time() - t0, (1 if rc else 0))
+    for m in msgs:
+        print(m)
+    if rc == 0:
+        print(f"OK property={prop} obligations={obligations} rules={len(rules)} evaluations={evaluations} exhaustive=true")
+    return rc
+
+
+PROPS["C09"] = {"run": run_c09}
